@@ -435,6 +435,9 @@ def corpus():
                 ("when", A("<", A("unbox", cnt), I(1)),
                  [A("set-box!", cnt, I(1)), A(A("unbox", kb), I(0))])]),
           ("sym", "done")]))))
+    # escape out of a nested extent into the enclosing extent's body (the common tail must be found)
+    out.append(("wind-nested-escape", main_of(
+        w(1, [A("call/cc", ("lam", ["k"], None, [disp(S("c ")), w(2, [A("k", I(0))])]))]))))
     # same thunk objects used by two activations of dynamic-wind (do-wind compares winders with equal?)
     out.append(("wind-shared-thunks", P(
         ("define", "tin", lam0(disp(S("<in ")))), ("define", "tout", lam0(disp(S("out> ")))),
@@ -526,19 +529,36 @@ def setlocal_corpus():
     return [("setlocal-reentry", prog)]
 
 
+# reset / shift: not part of the reference machine; a few classic programs with the answers the standard semantics of
+# delimited control gives (worked out by hand), as Steel text
+DELIM = [
+    ("(define (t) (+ 1 (reset (* 2 (shift k (k (k 3))))))) (t)", "OK I13 ;; OUT "),
+    ("(define (t) (reset (+ 1 (shift k 10)))) (t)", "OK I10 ;; OUT "),
+    ("(define (t) (reset (cons 1 (shift k (list (k (list)) (k (list 9))))))) (t)", "OK ((I1) (I1 I9)) ;; OUT "),
+    ("(define (t) (+ 100 (reset (+ 1 (shift k1 (+ 10 (reset (* 2 (shift k2 (k1 (k2 3))))))))))) (t)", "OK I117 ;; OUT "),
+    ("(define (t) (reset (begin (display \"a\") (shift k (begin (display \"b\") (k 0) (display \"c\") (k 0) 'end)) (display \"d\")))) (t)",
+     "OK '\"end\" ;; OUT abdcd"),
+    ("(define (t) (with-handler (lambda (e) (list 'h (reset (+ 1 (shift k (k (k 1))))))) (reset (+ 1 (shift k (error \"x\")))))) (t)",
+     "OK ('\"h\" I3) ;; OUT "),
+]
+
+
 # ------------------------------------------------------------------------------------------------
 # known-finding classes
 # ------------------------------------------------------------------------------------------------
 def set_local_then_reenter(case, params):
     """the program assigns (set!) a local variable that no closure captures, after capturing a continuation in the
     same frame, and re-enters that continuation"""
-    return case.get("class") == "setlocal-reentry"
+    eng = case.get("engine", "")
+    return case.get("class") == "setlocal-reentry" and not any(x in eng for x in ("PANIC", "CRASH", "HANG"))
 
 
 def jump_crosses_handler(case, params):
     """a continuation jump crosses a with-handler boundary (escape out of, or re-entry into, a with-handler body or
     handler procedure): checks/c08.py handler_crossing on the program"""
-    return case.get("handler_crossing") is True
+    # a host panic / crash / hang is never part of this class, whatever the program looks like
+    eng = case.get("engine", "")
+    return case.get("handler_crossing") is True and not any(x in eng for x in ("PANIC", "CRASH", "HANG"))
 
 
 # ------------------------------------------------------------------------------------------------
@@ -587,7 +607,7 @@ def shrink_case(ck, prog, env=None):
                 out[i] = e != m and not excluded(e, m)
         return out
     try:
-        return lang.shrink(prog, fails, max_rounds=25)
+        return lang.shrink(prog, fails, max_rounds=8)
     except Exception as ex:
         ck.log("shrink failed: %s" % ex)
         return prog
@@ -605,7 +625,8 @@ def run(ck):
         "re-runs the rest of ITS form on the engine: excluded by construction)",
         "mutable state is in boxes, vectors and globals; set! of a stack-allocated local followed by re-entry is the known "
         "finding C08-SETLOCAL-REENTRY and is excluded from the random generator",
-        "reset/shift are not generated (with-handler is implemented with them in stdlib.scm and is covered); threads are outside",
+        "reset/shift are not in the reference machine: six classic programs are compared with hand-computed answers "
+        "(with-handler is implemented with them in stdlib.scm and is covered by the generator); threads are outside",
         "errors raised inside wind thunks while another unwind is in progress are not generated",
     ]
     facts, _ = translate(ck)
@@ -648,7 +669,7 @@ def run(ck):
             if ck.cov["evaluations"] % 57 == 1:
                 ck.sample(case)
             if e != m:
-                if cls == "generated" and not case["handler_crossing"] and shrunk < 3:
+                if cls == "generated" and not case["handler_crossing"] and shrunk < 2:
                     shrunk += 1
                     small = shrink_case(ck, p, env=env)
                     (e2, m2), = compare(ck, [[small]], env=env)
@@ -656,6 +677,15 @@ def run(ck):
                             "handler_crossing": handler_crossing(small), "original_program": src}
                 ck.failing_input("engine and reference semantics differ (%s, %s): engine %s | reference %s" % (
                     cls, label, case["engine"][:300], case["reference"][:300]), case, tag="sem")
+    # delimited control: engine against hand-computed answers
+    for label, env in JIT_ENVS:
+        res = ck.eval_cases([[src] for src, _ in DELIM], fresh=True, env=env)
+        for (src, want), r in zip(DELIM, res):
+            ck.cov["evaluations"] += 1
+            got = engine_render(r)
+            if got != want:
+                ck.failing_input("reset/shift program (%s): engine %s, expected %s" % (label, got, want),
+                                 {"program": src, "engine": got, "reference": want, "jit": label, "class": "delimited"}, tag="delim")
     ck.cov["distinct_nontrivial"] = len(nontrivial)
     ck.cov["rule"] = ("programs from checks/c08.py Gen8 (C01 grammar + call/cc escapes in any expression position, throws, "
                       "re-entrant capture sites stored in boxes and re-invoked 0-3 times, dynamic-wind with capture/throw inside "
